@@ -38,12 +38,21 @@ fn main() {
                 rewards: get("rewards", "0") == "1",
                 drain: get("drain", "1") == "1",
                 crosscheck_every: get("crosscheck", "0").parse().unwrap(),
+                dual: get("dual", "0") == "1",
             };
             let mut rec = rec::Recorder::to_file(&out);
             hist::run(&cfg, &mut rec);
             eprintln!("{}", serde_json::to_string(&rec.stats_json()).unwrap());
             if let Some(p) = m.get("stats") {
                 std::fs::write(p, serde_json::to_string_pretty(&serde_json::json!({"stats": rec.stats_json(), "samples": rec.samples})).unwrap()).unwrap();
+            }
+        }
+        "ta" => {
+            let mut o = fndrv::Out::new(&out);
+            tadrv::run(seed, m.get("paths").map(|s| s.as_str()), get("sample", "100").parse().unwrap(), get("random", "50").parse().unwrap(), &mut o);
+            eprintln!("{}", serde_json::to_string(&o.stats()["stats"]).unwrap());
+            if let Some(p) = m.get("stats") {
+                std::fs::write(p, serde_json::to_string_pretty(&o.stats()).unwrap()).unwrap();
             }
         }
         "fn" => {
@@ -53,6 +62,7 @@ fn main() {
             match what.as_str() {
                 "steps" => fndrv::steps(seed, n, &mut o),
                 "deltas" => fndrv::deltas(seed, n, &mut o),
+                "views" => fndrv::views(seed, n, &mut o),
                 "ticks" => fndrv::ticks(seed, get("stride", "64").parse().unwrap(), n, get("lo", "-443636").parse().unwrap(), get("hi", "443636").parse().unwrap(), &mut o),
                 _ => panic!("unknown fn driver {what}"),
             }
